@@ -111,7 +111,7 @@ def replay_case(prop, path):
     for l in brief(t, (first or k_out or nsteps) + 1)[-8:]:
         print("  " + l[:400])
     oov = Conv(t).out_of_vocabulary()
-    if oov:
+    if oov and not (Conv(t).interpretable() and not bad and not k_reply and mask & (1 << bit)):
         print("VIOLATION property=%s replay=%s no-failing-input-found" % (prop, path))
         print("  at step %d the implementation issues an output the model's vocabulary does not contain: %s" % (oov[0][0], json.dumps(oov[0][1])[:300])); return 1
     if bad or k_reply:
@@ -177,7 +177,9 @@ def run_property(prop, tier, seed, gen, rule, assumptions, pins_targets=None, pr
                 o.corr_failures.append((desc_head + ": at step %d the implementation issued %s, which the model's vocabulary does not contain: %s" % (
                                             k0, "a request" if o0["o"] == "call" else "an output", json.dumps(o0)[:300]),
                                         {"profile": profile, "family": c["family"], "step": k0, "history": brief(t, k0 + 1), "case": runnable(c), "trace": t}))
-                continue
+                # when every such output has a lowering the monitors can still read the trace: go on and look for a failing input
+                if not Conv(t).interpretable(): continue
+                k_out = 0
             if bad:
                 o.internal.append(desc_head + ": the trace violates the environment contract / simulated node disagrees")
                 continue
@@ -272,7 +274,7 @@ COMMON_ASSUME = ["environment contract N1-N6 (DESIGN 3.3): CLN datastore semanti
                  "SHA-256 and BOLT11 parsing/signature recovery are oracles (the harness computes them with the plugin's own crates)",
                  "one model step = one task segment (an environment event and what the task it wakes does until its next await); the lifecycle's look at its ready/fail queues is its own event (EvPoll), so HTLCs overtaking a lagging lifecycle are in the model; the harness shows the HTLC segment and the poll back to back, or (burst events) several handle_htlc segments queued on the held table lock followed by the polls; other interleavings of the multi-threaded runtime rest on the reduction argument of DESIGN 3.2, not on Coq",
                  "injected errors on READ rpcs (thorough tier only, plus the committed witnesses) fall in the known-finding classes: kf_read_error for C02/C06 (any read), kf_pay_wait_read_error for C05/C08 (only reads of the wait_payment inside pay(); read errors elsewhere do not excuse a violation)"]
-BASE_RULE = ("scripted payment stories (11 ways a pay can end x 1-3 HTLC pieces x rejecting HTLC kinds/positions), the same stories with a whole-node crash injected before "
+BASE_RULE = ("scripted payment stories (15 ways a pay can end, incl. a part in flight for longer than the payment timeout x 1-3 HTLC pieces x rejecting HTLC kinds/positions), the same stories with a whole-node crash injected before "
              "every k-th primitive event followed by replay of the unanswered HTLCs and a drain, with a rejected / applied-but-error datastore write at every write position, "
              "and random walks over enabled events (weights in harness/src/cmd_system.rs); every trace is replayed through the Coq model (correspondence) and through the "
              "property monitor (Check/SysMon.v) by vm_compute. Non-trivial: the trace contains a pay request, a crash or an injected fault; distinct = distinct event list. ")
@@ -284,14 +286,14 @@ def gen_for(prop):
         k = 4 if T else 1
         cs = []
         if prop == "C01":
-            cs += stories(r, 11 * k); cs += reject_stories(r, 25 * k)
+            cs += stories(r, NEND * k); cs += reject_stories(r, 25 * k)
             cs += walks(r, 60 * k * (3 if T else 1), nhash=(2, 2, 1))
             cs += crash_sweep(r, 2 * k, 3)
         elif prop in ("C02", "C05"):
-            cs += stories(r, 11 * k)
+            cs += stories(r, NEND * k)
             cs += [straggler_case(r.fork()) for _ in range(30 * k)]
             cs += [straggler_crash_case(r.fork()) for _ in range(24 * k)]
-            cs += stories(r, 22 * k, second=True)
+            cs += stories(r, 2 * NEND * k, second=True)
             cs += crash_sweep(r, (22 if T else 4), 1 if T else 2)
             cs += fault_sweep(r, 11 if T else 3)
             cs += fault_sweep(r, 4 * k, kind="pay", nk=2)
@@ -309,7 +311,7 @@ def gen_for(prop):
             cs += reject_stories(r, 24 * k)
             cs += walks(r, 200 if T else 40, families=("default", "slow"))
         elif prop == "C06":
-            cs += stories(r, 11 * k); cs += reject_stories(r, 16 * k); cs += bursts(r, 12 * k)
+            cs += stories(r, NEND * k); cs += reject_stories(r, 16 * k); cs += bursts(r, 12 * k)
             cs += [odd_case(r.fork()) for _ in range(20 * k)]
             cs += [odd_all_case(r.fork(), lo, lo + 12) for lo in range(0, 84, 12)]
             cs += crash_sweep(r, 2 * k, 3); cs += fault_sweep(r, 3 * k); cs += fault_sweep(r, 2 * k, kind="pay", nk=2)
@@ -317,11 +319,11 @@ def gen_for(prop):
             if T:
                 cs += fault_sweep(r, 6, kind="read", nk=8); cs += walks(r, 60, families=("readfaults",))
         elif prop == "C07":
-            cs += reject_stories(r, 48 * k); cs += stories(r, 11 * k); cs += bursts(r, 24 * k)
+            cs += reject_stories(r, 48 * k); cs += stories(r, NEND * k); cs += bursts(r, 24 * k)
             cs += walks(r, 200 if T else 40)
             cs += crash_sweep(r, 2 * k, 3)
         elif prop == "C09":
-            cs += [add_probe(c) for c in stories(r, 11 * k)]
+            cs += [add_probe(c) for c in stories(r, NEND * k)]
             cs += crash_sweep(r, (22 if T else 5), 1 if T else 2, probe=True)
             cs += fault_sweep(r, 11 if T else 4, probe=True)
             cs += fault_sweep(r, 4 * k, kind="pay", nk=2, probe=True)
